@@ -63,6 +63,10 @@ def generate(seed, index, tier):
                     ix = g.gen_index(m)
                     if ix:
                         m['meta'].setdefault('indexes', []).append(ix)
+                        try:
+                            gen.spec.validate_state(st)
+                        except gen.SpecError:
+                            m['meta']['indexes'].pop()
     project = {'apps': {a: {'v0': st['apps'][a]['models'], 'steps': []}
                         for a in apps},
                'order': apps, 'databases': ['default']}
